@@ -357,3 +357,10 @@ add('c15-unclipped-plate-inflow', ['C15'], 'fire', 'Recipe.get_container_flows',
 add('c13-subslice-step-first', ['C13', 'C07'], 'fire', 'Slicer._process_sub_slice',
     'start = start + sub_slice.start * step', 'start = start + sub_slice.start * step * (sub_slice.step or 1)',
     'the start of a stepped sub-slice depends on the sub-slice step', module='pyplate/slicer.py')
+
+# F33 / F34 re-broken
+add('c07-set-indexes-with-list', ['C01', 'C07'], 'fire', 'Slicer.set',
+    'elif isinstance(self.slices, list):', 'elif False:',
+    'a list selection is used as one index again', module='pyplate/slicer.py')
+add('c13-subslice-keeps-cache', ['C13'], 'fire', 'Slicer.__getitem__',
+    "new_slicer._forget_cached()", 'pass', 'sub-slices keep the cached shape and size of their parent', module='pyplate/slicer.py', count=2)
